@@ -4,6 +4,7 @@
 HARNESSES = {
     'radix_seq': {'san': 'asan'},
     'seqcont_seq': {'san': 'asan'},
+    'hashmap_seq': {'san': 'asan'},
 }
 
 def rc(cases, size=100, scale=4, workers=None, sizes=None):
@@ -71,5 +72,25 @@ PROPS['C16'] = {
     'technique': 'stateful property testing with a lifetime-registering element type and a tracking allocator (history invariant)',
     'assumptions': ['Tracked and track_alloc observe every constructor/destructor/allocate/free call made by the containers'],
 }
+
+PROPS['C14'] = {
+    'runs': [{'harness': 'hashmap_seq',
+              'quick': {'rc': rc(8000, sizes=[60, 100, 200])},
+              'thorough': {'rc': rc(50000, sizes=[60, 100, 200, 400]), 'fuzz': {'seconds': 120}}}],
+    'rule': 'tape picks value type (int / Tracked), one of 7 hash functions (frg::hash, identity, constant, k&3, top bits only, well mixed 64-bit, '
+            'near UINT_MAX; all return 64-bit values that go through the map\'s unsigned cast), key universe (0..15 or up to 2^20 / random 64-bit) '
+            'and optionally initializer-list construction, then a history of insert(absent) const&/&&, operator[] on present/absent keys with a write '
+            'through the reference, get, find, const find, remove present/absent, iteration and bulk inserts crossing 10/20/40/80 entries; oracle: '
+            'std::map reference, every key ever used is looked up with get/find/const find after every operation, iteration compared as a map. '
+            'Non-trivial: a rehash happened while earlier entries were present (followed by the full lookup sweep) and an operator[] insertion of an '
+            'absent key happened at size == capacity (the table block was reallocated during the call); distinct = hash of the decoded history.',
+    'required_tags': ['hash-mode-%d' % k for k in range(7)] + ['size-past-10', 'size-past-20', 'size-past-40', 'size-past-80', 'emptied-and-refilled', 'bracket-insert-at-capacity', 'init-list'],
+    'min_cases': {'quick': 15000, 'thorough': 300000},
+    'level_text': 'generated operation histories against a std::map reference with a full lookup sweep after every operation; held on everything generated',
+    'level_note': 'trusts std::map; insert() is only called for absent keys as the property states',
+    'technique': 'model-based property testing (rapidcheck tapes, libFuzzer on the same decoder) against a std::map reference',
+    'assumptions': ['insert only of absent keys', 'iterators are not kept across updates'],
+}
+PROPS['C16']['runs'].append({'harness': 'hashmap_seq', 'quick': {'rc': rc(1500, sizes=[60, 100])}, 'thorough': {'rc': rc(30000, sizes=[60, 100, 200])}})
 
 NOT_APPLICABLE = {}
